@@ -63,6 +63,71 @@ var packetOfType = map[string]string{"Connect": "CONNECT", "ConnAck": "CONNACK",
 	"PubRel": "PUBREL", "PubComp": "PUBCOMP", "Subscribe": "SUBSCRIBE", "SubAck": "SUBACK", "Unsubscribe": "UNSUBSCRIBE", "UnsubAck": "UNSUBACK",
 	"Disconnect": "DISCONNECT", "Auth": "AUTH"}
 
+// accessorOf: the accessor of the public API that reports the property (the same table as in gen_c03.py,
+// written from the MQTT property names); W = will properties, reported through the will message (*Publish)
+// except for the will delay interval.
+var accessorOf = map[string]map[int64]string{
+	"CONNECT": {0x11: "Connect.SessionExpiryInterval", 0x21: "Connect.ReceiveMax", 0x27: "Connect.MaxPacketSize", 0x22: "Connect.TopicAliasMax",
+		0x19: "Connect.RequestResponseInfo", 0x17: "Connect.RequestProblemInfo", 0x15: "Connect.AuthMethod", 0x16: "Connect.AuthData"},
+	"W": {0x18: "Connect.WillDelayInterval", 0x01: "Publish.PayloadFormat", 0x02: "Publish.MessageExpiryInterval", 0x03: "Publish.ContentType",
+		0x08: "Publish.ResponseTopic", 0x09: "Publish.CorrelationData"},
+	"CONNACK": {0x11: "ConnAck.SessionExpiryInterval", 0x21: "ConnAck.ReceiveMax", 0x24: "ConnAck.MaxQoS", 0x25: "ConnAck.RetainAvailable",
+		0x27: "ConnAck.MaxPacketSize", 0x12: "ConnAck.AssignedClientID", 0x22: "ConnAck.TopicAliasMax", 0x1f: "ConnAck.ReasonString",
+		0x28: "ConnAck.WildcardSubAvailable", 0x29: "ConnAck.SubIdentifiersAvailable", 0x2a: "ConnAck.SharedSubAvailable",
+		0x13: "ConnAck.ServerKeepAlive", 0x1a: "ConnAck.ResponseInformation", 0x1c: "ConnAck.ServerReference", 0x15: "ConnAck.AuthMethod", 0x16: "ConnAck.AuthData"},
+	"PUBLISH": {0x01: "Publish.PayloadFormat", 0x02: "Publish.MessageExpiryInterval", 0x23: "Publish.TopicAlias", 0x08: "Publish.ResponseTopic",
+		0x09: "Publish.CorrelationData", 0x03: "Publish.ContentType"},
+	"PUBACK": {0x1f: "PubAck.ReasonString"}, "PUBREC": {0x1f: "PubRec.ReasonString"}, "PUBREL": {0x1f: "PubRel.ReasonString"}, "PUBCOMP": {0x1f: "PubComp.ReasonString"},
+	"SUBACK": {0x1f: "SubAck.ReasonString"}, "UNSUBACK": {0x1f: "UnsubAck.ReasonString"},
+	"AUTH": {0x15: "Auth.AuthMethod", 0x16: "Auth.AuthData", 0x1f: "Auth.ReasonString"},
+}
+
+// fieldOf follows a value back to the struct field it was loaded from: (struct type name, field name).
+func fieldOf(v ssa.Value) (string, string) {
+	for i := 0; i < 6; i++ {
+		switch x := v.(type) {
+		case *ssa.UnOp:
+			v = x.X
+			continue
+		case *ssa.ChangeType:
+			v = x.X
+			continue
+		case *ssa.Convert:
+			v = x.X
+			continue
+		case *ssa.FieldAddr:
+			st := x.X.Type().Underlying().(*types.Pointer).Elem()
+			name := ""
+			if n, ok := types.Unalias(st).(*types.Named); ok {
+				name = n.Obj().Name()
+			}
+			return name, st.Underlying().(*types.Struct).Field(x.Field).Name()
+		}
+		break
+	}
+	return "", ""
+}
+
+// accessorField: the single struct field an accessor's body reads ("" if it reads none or several).
+func accessorField(fn *ssa.Function) (string, string) {
+	tn, fname, n := "", "", 0
+	for _, b := range fn.Blocks {
+		for _, ins := range b.Instrs {
+			if fa, ok := ins.(*ssa.FieldAddr); ok {
+				t, f := fieldOf(fa)
+				if t != tn || f != fname {
+					n++
+				}
+				tn, fname = t, f
+			}
+		}
+	}
+	if n != 1 {
+		return "", ""
+	}
+	return tn, fname
+}
+
 func scanPropertyTables(w *World, run *PropRun) {
 	byID := map[int64]mqttProp{}
 	for _, p := range mqttProps {
@@ -152,6 +217,21 @@ func scanPropertyTables(w *World, run *PropRun) {
 						wt := wireOf[recvT]
 						okType := known && (wt == sp.wire || wt == "strbin" && (sp.wire == "str" || sp.wire == "bin"))
 						report(fmt.Sprintf("%s/0x%02x/wire-type", ob, v), okType, fmt.Sprintf("identifier 0x%02x is written as %s (%s), the specification says %s (%s)", v, recvT, wt, sp.wire, w.fset.Position(call.Pos())))
+						// the value written under this identifier is the field the accessor of that property reads
+						if acc := accessorOf[section][v]; acc != "" {
+							parts := strings.SplitN(acc, ".", 2)
+							afn := w.funcs["(*"+parts[0]+")."+parts[1]]
+							wt, wf := fieldOf(call.Call.Args[0])
+							okBind, why := false, ""
+							if afn == nil {
+								why = "accessor " + acc + " not found"
+							} else {
+								at, af := accessorField(afn)
+								okBind = at != "" && at == wt && af == wf
+								why = fmt.Sprintf("identifier 0x%02x (%s) is written from field %s.%s, but the accessor %s() reads %s.%s (%s)", v, sp.name, wt, wf, acc, at, af, w.fset.Position(call.Pos()))
+							}
+							report(fmt.Sprintf("%s/0x%02x/accessor-binding", ob, v), okBind, why)
+						}
 					}
 				}
 			}
@@ -198,5 +278,5 @@ func scanPropertyTables(w *World, run *PropRun) {
 			}
 		}
 	}
-	run.Extra = append(run.Extra, "property table conformance scan over the SSA of the encoders and property maps against MQTT v5.0 Table 2-4 (27 identifiers)")
+	run.Extra = append(run.Extra, "property table conformance scan over the SSA of the encoders and property maps against MQTT v5.0 Table 2-4 (27 identifiers), including the binding of each written identifier to the field its accessor reads")
 }
